@@ -324,6 +324,26 @@ def get(name, role, **opts):
     return Peer(clone(tmpl))
 
 
+class _DetOS:
+    """os with a deterministic urandom, so that two endpoints constructed in turn draw equal 'random' IDs"""
+
+    def __init__(self):
+        import os
+
+        self._os = os
+        self.n = 0
+
+    def __getattr__(self, k):
+        return getattr(self._os, k)
+
+    def urandom(self, n):
+        self.n += 1
+        return bytes(((self.n * 37 + i * 11) % 251) + 1 for i in range(n))
+
+
+DET = _DetOS()
+
+
 def _dump_cid(cid):
     if isinstance(cid, sx.SymBytes):
         return "<cid>"
